@@ -1,7 +1,7 @@
 (** * Cases: interpreter of correspondence cases over the model (pure-function commands).
     The same [run_case] is extracted to OCaml and evaluated by vm_compute.  Harness code. *)
 From Coq Require Import ZArith NArith List String Ascii Bool.
-From HepMC Require Import Num NumB Translated Result Accum VegasPdf Discrete MultiChannel Helper Sx.
+From HepMC Require Import Num NumB Translated Result Accum VegasPdf Discrete MultiChannel Helper Fs Sx.
 Import ListNotations.
 Local Open Scope string_scope.
 
@@ -116,6 +116,22 @@ Section Cases.
       | [SN bx; SN by_; SF xmin; SF xmax; SF ymin; SF ymax] =>
         let d := mk_dres (make_dparams2 bx by_ (fin_ F xmin) (fin_ F xmax) (fin_ F ymin) (fin_ F ymax) "") [] in
         SL [eFs F (mid_points_x d); eFs F (mid_points_y d)]
+      | _ => bad end
+    else if String.eqb cmd "fsops" then
+      (* the operation list of the writing callback for a text cut into pieces of the given lengths
+         (bytes are abstract: each piece is represented by its length) *)
+      match args with
+      | [SS name; lens] =>
+        match dLof dN lens with
+        | Some ls =>
+          SL (map (fun o => match o with
+                            | OpOpen p => SL [SY "open"; SS p]
+                            | OpWrite p d => SL [SY "write"; SS p; SN (N.of_nat (List.length d))]
+                            | OpClose p => SL [SY "close"; SS p]
+                            | OpRename a b => SL [SY "rename"; SS a; SS b]
+                            end)
+                  (write_chkpt_ops unit name (map (fun n => repeat tt (N.to_nat n)) ls)))
+        | None => bad end
       | _ => bad end
     else SL [SY "unknown_command"].
 End Cases.
